@@ -47,7 +47,7 @@ prices incl. 0 and 1, for u64/9 and u128/20; the real FeeParams::{fee,receiver_f
 PositionExt::position_fees(..,is_liquidation=true) and increase().execute() run under a panic guard and a BigInt oracle decides: \
 returned splits satisfy net+pool+receiver==gross exactly and equal the floor formulas (liquidation amount rounds up), fee<=gross, \
 fee(discount)<=fee(0) and monotone, all-factors<=100% never fails, no returned split has fee>gross. non-trivial = a split was \
-returned with fee>0; distinct = hash(site,type,all inputs) over the first 20000 non-trivial cases per shard (lower bound).";
+returned with fee>0; distinct = hash(site,type,all inputs) over the first 1.9e6/(2·shards) non-trivial cases per shard and type (memory bound: a lower bound).";
 
 struct Cx<'a> {
     m: &'a mut Monitor,
@@ -132,7 +132,7 @@ fn bc_name(i: u8) -> &'static str {
 fn gen_cfg<T: Nx>(rng: &mut Rng, unit: u128) -> Cfg {
     // 60 %: everything valid; 40 %: anything (often with some factor above 100 %)
     let valid_only = rng.chance(3, 5);
-    let mut g = |rng: &mut Rng| {
+    let g = |rng: &mut Rng| {
         let f = gfactor::<T>(rng, unit);
         if valid_only {
             f.min(unit)
@@ -791,12 +791,12 @@ fn case_increase<T: Mk<D>, const D: u8>(cx: &mut Cx, rng: &mut Rng) {
     }
 }
 
-fn shard_run<T: Mk<D>, const D: u8>(seed: u64, shard: u64, n: u64, m: &mut Monitor) {
+fn shard_run<T: Mk<D>, const D: u8>(seed: u64, shard: u64, shards: u64, n: u64, m: &mut Monitor) {
     let mut rng = Rng::derive(seed, shard, fnv(T::NAME.as_bytes()) ^ 0xC02);
     let mut cx = Cx {
         m,
         t: Tally::default(),
-        d: Distinct::new(20_000),
+        d: Distinct::new(Distinct::budget_for(shards)),
         ty: T::NAME,
     };
     for i in 0..n {
@@ -822,12 +822,12 @@ pub fn run(args: &Args) -> i32 {
     let shards = args.scale(64, 256);
     let per_shard_per_type = match args.extra.get("cases").and_then(|s| s.parse::<u64>().ok()) {
         Some(n) => n,
-        None => args.scale(120_000, 400_000),
+        None => args.scale(1_000_000, 3_000_000),
     };
     let seed = args.seed;
     run_shards(&mut mon, args.threads, shards, |shard, m| {
-        shard_run::<u64, 9>(seed, shard, per_shard_per_type, m);
-        shard_run::<u128, 20>(seed, shard, per_shard_per_type, m);
+        shard_run::<u64, 9>(seed, shard, shards, per_shard_per_type, m);
+        shard_run::<u128, 20>(seed, shard, shards, per_shard_per_type, m);
     });
     mon.assume("positions used for the liquidation-fee observation carry no pending borrowing / funding fees (fresh market), so PositionFees consists of the order and liquidation parts only");
     mon.assume("the action-level observation uses a fresh position on a market with ample liquidity and the repository's test prices (120 / 1)");
